@@ -12,11 +12,14 @@ package main
 
 import (
 	"context"
+	"crypto/sha256"
+	"encoding/hex"
 	"encoding/json"
 	"fmt"
 	"os"
 	"os/exec"
 	"path/filepath"
+	"syscall"
 	"time"
 
 	"verifharness/cmd/c20/slicer"
@@ -43,14 +46,26 @@ func main() {
 	if err != nil {
 		fail("cannot slice the conversion block out of %s/core/slice.go: %v", repo, err)
 	}
-	tmp, err := os.MkdirTemp("", "verif-c20-overlay-")
-	if err != nil {
-		fail("tempdir: %v", err)
+	// stable build directory per repository path: the go build cache (and the up-to-date test of the
+	// output binary) then make an unchanged tree cost seconds; serialised by a file lock
+	hh := sha256.Sum256([]byte(repo))
+	tmp := filepath.Join(verif, "build", "c20-"+hex.EncodeToString(hh[:4]))
+	if err := os.MkdirAll(tmp, 0o755); err != nil {
+		fail("build dir: %v", err)
 	}
-	defer os.RemoveAll(tmp)
+	lock, err := os.OpenFile(filepath.Join(tmp, ".lock"), os.O_CREATE|os.O_RDWR, 0o644)
+	if err != nil {
+		fail("lock: %v", err)
+	}
+	defer lock.Close()
+	if err := syscall.Flock(int(lock.Fd()), syscall.LOCK_EX); err != nil {
+		fail("lock: %v", err)
+	}
 	gen := filepath.Join(tmp, "verif_c20_sliced_gen.go")
-	if err := os.WriteFile(gen, []byte(res.GoFile), 0o644); err != nil {
-		fail("write: %v", err)
+	if old, err := os.ReadFile(gen); err != nil || string(old) != res.GoFile {
+		if err := os.WriteFile(gen, []byte(res.GoFile), 0o644); err != nil {
+			fail("write: %v", err)
+		}
 	}
 	target := filepath.Join(repo, "core", "verif_c20_sliced_gen.go")
 	if _, err := os.Stat(target); err == nil {
@@ -70,15 +85,28 @@ func main() {
 	out, err := build.CombinedOutput()
 	if err != nil {
 		os.Stderr.Write(out)
-		os.RemoveAll(tmp)
 		fail("the sliced text of (*Slice).Append lines %d-%d (free variables %v) does not build as core.VerifRepriceConversions: %v", res.StartLine, res.EndLine, res.FreeVars, err)
 	}
-	run := exec.Command(inner, os.Args[1:]...)
+	// run a private copy so that the lock can be released before the (long) run
+	priv, err := os.CreateTemp("", "verif-c20-inner-")
+	if err != nil {
+		fail("tempfile: %v", err)
+	}
+	bin, err := os.ReadFile(inner)
+	if err != nil {
+		fail("read inner binary: %v", err)
+	}
+	priv.Write(bin)
+	priv.Chmod(0o755)
+	priv.Close()
+	defer os.Remove(priv.Name())
+	syscall.Flock(int(lock.Fd()), syscall.LOCK_UN)
+	run := exec.Command(priv.Name(), os.Args[1:]...)
 	run.Env = append(env, "VERIF_REPO="+repo, fmt.Sprintf("VERIF_C20_SLICE=%d-%d", res.StartLine, res.EndLine))
 	run.Stdout, run.Stderr, run.Stdin = os.Stdout, os.Stderr, nil
 	if err := run.Run(); err != nil {
 		fmt.Fprintln(os.Stderr, "c20 inner harness:", err)
-		os.RemoveAll(tmp)
+		os.Remove(priv.Name())
 		os.Exit(1)
 	}
 }
